@@ -53,6 +53,28 @@ CHECKS["C19"] = dict(
          "paths beyond the ownership rules.",
     ref="DESIGN.md §3 C19")
 
+CHECKS["C07"] = dict(
+    technique="static analysis: OpenMP parallel-region effect analysis over AST + whole-program call graph (dispatch slots resolved)",
+    text="Effect clauses: every write inside the two parallel regions of carquet_batch_reader_next is region-"
+         "local, selected by the loop index, a monotone flag, or inside omp critical/atomic; every mutable "
+         "file-scope/static-local variable of the library is thread-local or an accepted idempotent lazy "
+         "initialiser written only by its initialiser with the flag published last; in every function "
+         "reachable from a region, positioned stdio on the shared stream is inside omp critical with seek and "
+         "read together, and no store reaches the shared reader/metadata/schema objects unprotected. Not "
+         "decided: equality of batches across thread counts; races inside zlib/zstd/libgomp.",
+    ref="DESIGN.md §3 C07",
+    note="Memory-model assumption for the accepted lazy-init idiom: x86-TSO, no compiler reordering across the flag store.")
+CHECKS["C14"] = dict(
+    technique="static analysis: CFG must-pass-through of the CRC comparison before consumers; cursor-skeleton abstract execution of the CRC routine over lengths 0..80",
+    text="Structural clauses: in all four page loaders no path with has_crc && verify_checksums reaches a "
+         "consumer of page bytes without the comparison of carquet_crc32(stored bytes, compressed_page_size) "
+         "with the header crc, and the mismatch arm returns CRC_MISMATCH; the writer checksums the bytes it "
+         "stores and enables CRC by default; the generator uses 0xEDB88320; abstract execution of the cursor "
+         "arithmetic of crc32_slicing_by_8 shows for every length 0..80 that reads stay in bounds and every "
+         "input byte is read. Not decided: equality with zlib for all inputs, incremental composition, the "
+         "CRC's detection algebra.",
+    ref="DESIGN.md §3 C14")
+
 NOT_APPLICABLE = {
     "C10": "conformance of Snappy/LZ4 streams to the external grammars is a statement about emitted/accepted byte values; no structural clause beyond the decoder bounds already decided under C08 (DESIGN.md §6)",
     "C12": "conformance of encoder output to the Parquet encoding specification needs an independent codec as value oracle; no sound structural clause (DESIGN.md §6)",
